@@ -6,6 +6,8 @@ R19b body-length forms: encoder and decoder against the RFC over all boundary re
 R19c iterated-S2K count expression over all 256 count octets,
 R19d scalar / MPI / time codecs: big-endian field agreement,
 R19e armor decoding refuses a wrong checksum,
+R19g iterated S2K hashing: salt+passphrase is hashed completely at least once (RFC 4880 3.7.1.3),
+     only the repetitions are cut off at the octet count,
 R19f fingerprint framing: v4 = SHA-1 over 0x99 | 2-octet length | body, v5 = SHA-256 over 0x9A |
      4-octet length | body; key ids are the low 64 bits (v4) / high 64 bits (v5) of the fingerprint."""
 from .. import evalx
@@ -46,6 +48,7 @@ def run(ctx):
     r19d(ctx)
     r19e(ctx)
     r19f(ctx)
+    r19g(ctx)
 
 
 def global_value(prog, name):
@@ -397,3 +400,48 @@ def r19f(ctx):
         else:
             ctx.bad('R19f', key, 'key id is taken from octets %d..%d of the fingerprint, the standard prescribes %d..%d (%s)' % (rng[0], rng[1] - 1, lo, hi - 1, what), f)
     ctx.floor('R19f', sum(1 for r in ctx.results if r.rule == 'R19f' and r.status == 'ok'), 4)
+
+
+def r19g(ctx):
+    """RFC 4880 3.7.1.3: "the entire salt+passphrase is always hashed at least once": in the counted
+    hash routine behind the iterated S2K there must be a pass over the whole input whose octets are
+    fed to the hash without reference to the octet count; only the repetitions are bounded by it."""
+    prog = ctx.prog
+    fs = [f for f in prog.fn(CLS + '::HashCompute') if len(f['params']) == 5 and f.get('body')]
+    n = 0
+    for f in fs:
+        a = ctx.analysis(f)
+        T = a.T
+        cntp = T.mk('param', f['params'][1]['n'])
+        inp = f['params'][3]
+        reads = [(nid, ev) for nid, ev in a.all_events('index') if ev[1] == ('v', inp['id'], inp['n'])]
+        key = 'R19g:HashCompute:%d' % fs.index(f)
+        n += 1
+        if not reads:
+            ctx.note('R19g', key, 'the input is no longer read element-wise; not evaluated', f)
+            continue
+        full = False
+        counted = False
+        for nid, ev in reads:
+            st = a.instate[nid]
+            mentions = any(cntp in T.subterms(fa) for fa in st.facts)
+            loops = [h for h, b in a.loop_nodes.items() if nid in b]
+            whole = False
+            for h in loops:
+                lb = a.loop_bound.get(h)
+                if lb and lb[1] == '<' and lb[3] == 1 and T.is_int(lb[2], 0):
+                    bn = T.node(lb[0])
+                    if bn[0] == 'mc' and bn[1].split('::')[-1] == 'size':
+                        whole = True
+            if mentions:
+                counted = True
+            elif whole and T.op(ev[2]) == 'iv':
+                full = True
+        if full:
+            ctx.ok('R19g', key, 'the whole input is hashed once unconditionally; only the repetitions are bounded by the octet count', f)
+        elif counted:
+            ctx.bad('R19g', key, 'every octet of salt+passphrase is fed to the hash only under the octet counter: an input longer than the '
+                    'count is truncated, RFC 4880 3.7.1.3 requires it to be hashed completely at least once', f)
+        else:
+            ctx.note('R19g', key, 'shape of the counted hashing not recognised; not evaluated', f)
+    ctx.floor('R19g', sum(1 for r in ctx.results if r.rule == 'R19g' and r.status == 'ok'), 2)
